@@ -191,6 +191,7 @@ func verifyFunctionOpt(P *Program, fn *ssa.Function, props []string, opt func(*E
 	}
 	// the entry state as seen by old(), frames and relational checks: with the preconditions
 	entry = st
+	e.rootEntrySt = st
 	// vacuity cover: the preconditions must be satisfiable
 	e.cover(st, fn, "cover.requires")
 	fr := e.newFrame(fn, args, st, 0)
@@ -225,6 +226,10 @@ func verifyFunctionOpt(P *Program, fn *ssa.Function, props []string, opt func(*E
 		}
 		if ct.HasAssigns {
 			e.frameCheck(s, entry, penv, ct.Assigns, fn, "assigns", entry.brk)
+		}
+		if !ct.ModGhost && (s.ghost != entry.ghost || s.gepoch != entry.gepoch) && (ct.HasAssigns || len(ct.Ensures) > 0) {
+			// environment effects (sends, spawns, locking) must be declared with a `ghost` clause
+			e.oblige(s, fn, "assigns", "ghost", token.NoPos, e.c.False)
 		}
 	}
 	if len(ct.Determines) > 0 {
@@ -390,6 +395,9 @@ func (e *Exec) applyContract(fr *Frame, st State, fn *ssa.Function, ct *FuncCont
 		st = e.havocAll(st, short)
 	}
 	st = e.havocAbove(st, short)
+	if ct.ModGhost {
+		st = e.havocGhost(st)
+	}
 	res := fn.Signature.Results()
 	var ret Val
 	for i := 0; i < res.Len(); i++ {
@@ -597,6 +605,7 @@ func (e *Exec) enterLoopHeader(fr *Frame, st State, b *ssa.BasicBlock, prev *ssa
 		}
 		limit := st.brk
 		st = e.havocAbove(st, "loop")
+		st = e.havocGhost(st)
 		hv := map[*ssa.Phi]Val{}
 		regsAt := map[ssa.Value]Val{}
 		for _, in := range b.Instrs {
